@@ -96,18 +96,23 @@ def argminFirst (lt : α → α → Bool) : List α → Option α
 def findOptimalPartition (N nq nt : Nat) : Option (Nat × Nat) :=
   argminFirst (costLt nq nt) (optCandidates N nq nt)
 
-/-- `find_batch_partition` after the timing measurement has produced `neurons_per_batch ≥ 1`. -/
+/-- `while (n_rows * n_cols) % n_cores: n_rows += 1` with explicit fuel. -/
+def batchRowsLoop (cols n : Nat) : Nat → Nat → Nat
+  | 0, rows => rows
+  | fuel + 1, rows => if (rows * cols) % n ≠ 0 then batchRowsLoop cols n fuel (rows + 1) else rows
+
+/-- `find_batch_partition` after the timing measurement has produced `neurons_per_batch`, the loop as
+written (fuel `n_cores` always suffices, see `Props.C09.batch_loop_terminates`). -/
 def findBatchPartition (npb nq nt : Nat) (ncores : Option Nat) : Nat × Nat :=
   let rows := max 1 (nq / npb)
   let cols := max 1 (nt / npb)
   match ncores with
-  | some n =>
-    if n ≠ 0 ∧ rows * cols > n then
-      -- `while (rows*cols) % n: rows += 1` terminates within `n` steps
-      let rows' := ((List.range (n + 1)).map (rows + ·)).find? (fun r => (r * cols) % n = 0)
-      (rows'.getD rows, cols)
-    else (rows, cols)
+  | some n => if n ≠ 0 ∧ rows * cols > n then (batchRowsLoop cols n n rows, cols) else (rows, cols)
   | none => (rows, cols)
+
+end Navis.Partition
+
+namespace Navis.Partition
 
 /-! ## Extensions (second pass)
 
@@ -146,24 +151,10 @@ def bothJob (j : Job) : Job := ⟨bothRows j.qix, j.tix⟩
 def assembleBoth {α} (f : Nat → Nat → α × α) (done : List Job) : Mat α :=
   assembleBlocks (done.map fun j => (bothJob j, jobResultBoth f j))
 
-/-! ### `find_batch_partition` as written (timing → neurons per batch; `while` loop) -/
+/-! ### `find_batch_partition`: timing → neurons per batch -/
 
 /-- `max(1, int(np.sqrt(T / time_per_query)))` for a measured `time_per_query = tnum / tden` seconds. -/
 def neuronsPerBatch (T tnum tden : Nat) : Nat := max 1 (Nat.sqrt (T * tden / tnum))
-
-/-- `while (n_rows * n_cols) % n_cores: n_rows += 1` with explicit fuel. -/
-def batchRowsLoop (cols n : Nat) : Nat → Nat → Nat
-  | 0, rows => rows
-  | fuel + 1, rows => if (rows * cols) % n ≠ 0 then batchRowsLoop cols n fuel (rows + 1) else rows
-
-/-- `find_batch_partition` with the loop as written (fuel `n_cores` always suffices, see
-`Props.C09.batch_loop_terminates`). -/
-def findBatchPartitionW (npb nq nt : Nat) (ncores : Option Nat) : Nat × Nat :=
-  let rows := max 1 (nq / npb)
-  let cols := max 1 (nt / npb)
-  match ncores with
-  | some n => if n ≠ 0 ∧ rows * cols > n then (batchRowsLoop cols n n rows, cols) else (rows, cols)
-  | none => (rows, cols)
 
 /-! ### Which partition each NBLAST flavour asks for
 
@@ -176,9 +167,9 @@ def chooseNblast (ncores : Option Nat) (progress : Bool) (npbP npbM nq nt : Nat)
   match ncores with
   | some n =>
     if n > 1 then
-      if progress then some (findBatchPartitionW npbP nq nt none)
+      if progress then some (findBatchPartition npbP nq nt none)
       else
-        let rc := findBatchPartitionW npbM nq nt none
+        let rc := findBatchPartition npbM nq nt none
         if rc.1 * rc.2 < n then findOptimalPartition n nq nt else some rc
     else some (1, 1)
   | none => some (1, 1)
@@ -187,7 +178,7 @@ def chooseSimple (ncores : Option Nat) (progress : Bool) (npbP nq nt : Nat) : Op
   match ncores with
   | some n =>
     if n > 1 then
-      if progress then some (findBatchPartitionW npbP nq nt none) else findOptimalPartition n nq nt
+      if progress then some (findBatchPartition npbP nq nt none) else findOptimalPartition n nq nt
     else some (1, 1)
   | none => some (1, 1)
 
